@@ -18,23 +18,44 @@ def peek_uid(net):
     return next(copy.copy(net._edge_uid))
 
 
+def _norm(v):
+    """Attribute values in a comparable form (numpy arrays, deques ... do not define a boolean ==)."""
+    t = type(v)
+    if t in (int, float, str, bool, type(None)):
+        return v
+    if isinstance(v, dict):
+        return {k: _norm(x) for k, x in v.items()}
+    if t is list:
+        return [_norm(x) for x in v]
+    if t is tuple:
+        return tuple(_norm(x) for x in v)
+    mod = t.__module__
+    if mod == "numpy":
+        return ("numpy", t.__name__, getattr(v, "dtype", None) and str(v.dtype), v.tolist())
+    if mod == "collections" and t.__name__ == "deque":
+        return ("deque", [_norm(x) for x in v])
+    if t is bytearray:
+        return ("bytearray", bytes(v))
+    return v
+
+
 def snap(net, order=True, uid=False):
     """Ordered snapshot: (class, nodes, edges, net_attr[, next_uid]).
 
     nodes: list of (id, attrs); edges: list of (id, members | (tail, head), attrs).
     With order=False lists are replaced by dicts (unordered comparison).
     """
-    nodes = [(n, copy.deepcopy(dict(net._node_attr[n])) if n in net._node_attr else "<no attr record>") for n in net.nodes]
+    nodes = [(n, _norm(copy.deepcopy(dict(net._node_attr[n]))) if n in net._node_attr else "<no attr record>") for n in net.nodes]
     if is_di(net):
         dm = net.edges.dimembers(dtype=dict)
         mem = {e: (frozenset(t), frozenset(h)) for e, (t, h) in dm.items()}
     else:
         mem = {e: frozenset(m) for e, m in net.edges.members(dtype=dict).items()}
     edges = [
-        (e, mem[e], copy.deepcopy(dict(net._edge_attr[e])) if e in net._edge_attr else "<no attr record>") for e in net.edges
+        (e, mem[e], _norm(copy.deepcopy(dict(net._edge_attr[e]))) if e in net._edge_attr else "<no attr record>") for e in net.edges
     ]
     memberships = _memberships(net)
-    na = copy.deepcopy(dict(net._net_attr))
+    na = _norm(copy.deepcopy(dict(net._net_attr)))
     if not order:
         out = (type(net).__name__, {n: a for n, a in nodes}, {e: (m, a) for e, m, a in edges}, memberships, na)
     else:
